@@ -24,7 +24,10 @@ OFPT_BARRIER_REPLY = 19
 OFPFC_ADD, OFPFC_MODIFY, OFPFC_MODIFY_STRICT, OFPFC_DELETE, OFPFC_DELETE_STRICT = 0, 1, 2, 3, 4
 OFPFF_SEND_FLOW_REM, OFPFF_CHECK_OVERLAP, OFPFF_EMERG = 1, 2, 4
 OFPRR_IDLE_TIMEOUT, OFPRR_HARD_TIMEOUT, OFPRR_DELETE = 0, 1, 2
+OFPET_BAD_ACTION = 2
+OFPBAC_BAD_TYPE = 0
 OFPET_FLOW_MOD_FAILED = 3
+OFPFMFC_UNSUPPORTED = 5
 OFPFMFC_ALL_TABLES_FULL, OFPFMFC_OVERLAP, OFPFMFC_EPERM, OFPFMFC_BAD_EMERG_TIMEOUT = 0, 1, 2, 3
 OFPST_FLOW, OFPST_AGGREGATE = 1, 2
 OFPP_NONE = 0xffff
@@ -38,6 +41,16 @@ def header(typ, length, xid):
 
 def action_output(port, max_len=0):
   return struct.pack("!HHHH", OFPAT_OUTPUT, 8, port, max_len)
+
+
+def action_vendor(vendor=0x00badbad, body=b""):
+  """struct ofp_action_vendor_header: type 0xffff, len, vendor(4) (+ body, padded by the caller to 8n)"""
+  return struct.pack("!HHL", 0xffff, 8 + len(body), vendor) + bytes(body)
+
+
+def action_strip_vlan():
+  """struct ofp_action_header with type OFPAT_STRIP_VLAN (3): type, len 8, pad(4)"""
+  return struct.pack("!HH4x", 3, 8)
 
 
 def flow_mod(match40, command, priority=0x8000, idle=0, hard=0, cookie=0, flags=0, out_port=OFPP_NONE,
